@@ -78,7 +78,7 @@ Definition z_scale (tab : list (Q * Q)) (chains : list (list Q)) : option (list 
   all_some (map (fun c => all_some (map (fun x => ppf_lookup tab (blom pool x)) c)) chains).
 
 (* median of a list of rationals that are integers here: the pooled draws *)
-Definition rank_rhat_sq (tab : list (Q * Q)) (chains : list (list Z)) : option Q :=
+Definition rank_rhat_sq (tab : list (Q * Q)) (chains : list (list Z)) : option (option Q) :=
   let sp := split_chains chains in
   let med := median (concat sp) in
   let spq := map zq sp in
@@ -86,7 +86,12 @@ Definition rank_rhat_sq (tab : list (Q * Q)) (chains : list (list Z)) : option Q
   match z_scale tab spq, z_scale tab folded with
   | Some zb, Some zt =>
       if ppf_increasing tab then
-        let b := rhat_sq_q zb in let t := rhat_sq_q zt in Some (if Qle_bool b t then t else b)
+        (* a zero within-chain variance of the z-scores (e.g. constant folded half-chains) makes the value inf / nan
+           (and Python's max(bulk, tail) keeps bulk when tail is nan = 0/0) *)
+        if Qeq_bool (qmeanr (map qvar1r zb)) 0 then Some None
+        else if Qeq_bool (qmeanr (map qvar1r zt)) 0
+             then (if Qeq_bool (qvar1r (map qmeanr zt)) 0 then Some (Some (rhat_sq_q zb)) else Some None)
+        else let b := rhat_sq_q zb in let t := rhat_sq_q zt in Some (Some (if Qle_bool b t then t else b))
       else None
   | _, _ => None
   end.
@@ -100,7 +105,7 @@ Definition rhat_sq_opt (m : rmethod) (chains : list (list Z)) : option Q :=
   if ((length (hd [] chains) <? 4) || (length chains <? 2))%nat then None
   else match m with
        | RRank tab => match rank_rhat_sq tab chains with
-                      | Some q => Some q
+                      | Some r => r
                       | None => Some (-1 # 1)     (* table incomplete / not increasing: matches no observed value *)
                       end
        | _ => let cs := match m with RSplit => split_chains chains | _ => chains end in
